@@ -38,6 +38,7 @@ type c04Split struct {
 	// input shapes on which the unchanged tree is known to break the property (findings/C04.txt); they become part
 	// of the failure key so that a recorded finding never hides a failure on any other shape
 	Labels []string
+	Null   bool // some later part mentions the attribute as an explicit null (nothing to apply)
 }
 
 type c04SplitInfo struct {
@@ -354,6 +355,7 @@ func c04Context() map[string]any {
 
 type c04o struct {
 	*c04g
+	dups int // in-file duplicates generated so far (a key / entry repeated inside ONE part)
 }
 
 func (g *c04o) n() int { return 1 + g.r.Intn(3) } // number of overrides
@@ -515,6 +517,12 @@ func (g *c04o) spellKV(keys []string, m map[string]*string, allowTyped bool) any
 	if g.chance(1, 2) {
 		l := []any{}
 		for _, k := range keys {
+			// a key repeated inside ONE file: the later entry of the same file wins (so a key can make its first
+			// appearance after another key's duplicate has been collapsed: [A=1, A=2, B=0, B=1])
+			if g.chance(1, 4) {
+				l = append(l, k+"=stale")
+				g.dups++
+			}
 			if m[k] == nil {
 				l = append(l, k)
 			} else {
@@ -683,7 +691,7 @@ func (g *c04o) splitList(n int, unique bool) c04Split {
 		}
 		any_ = true
 		var items []string
-		for k := g.r.Intn(4); k > 0; k-- {
+		for k := g.r.Intn(5); k > 0; k-- {
 			it := a.pool[g.r.Intn(len(a.pool))]
 			if !unique {
 				// plain sequences are appended as they are; the schema rejects repeated items, so keep them distinct
@@ -695,8 +703,9 @@ func (g *c04o) splitList(n int, unique bool) c04Split {
 				items = append(items, it)
 				continue
 			}
-			if unique {
-				// an entry repeated inside one file is also collapsed by unicity; keep a file's own entries distinct
+			if unique && !g.chance(1, 3) {
+				// an entry repeated inside one file is also collapsed by unicity (it keeps its first position);
+				// two times out of three keep a file's own entries distinct
 				dup := false
 				for _, x := range items {
 					if x == it {
@@ -705,6 +714,11 @@ func (g *c04o) splitList(n int, unique bool) c04Split {
 				}
 				if dup {
 					continue
+				}
+			}
+			for _, x := range items {
+				if unique && x == it {
+					g.dups++
 				}
 			}
 			items = append(items, it)
@@ -748,8 +762,16 @@ func (g *c04o) splitWholesale(n int) c04Split {
 		vals = []any{"echo hi", []any{"echo", "hi"}, []any{"a", "b", "c"}, "sleep 1", []any{}, []any{"x"}}
 	}
 	s := c04Split{Path: path, Kind: "wholesale", Target: c04Absent}
+	nullable := path[len(path)-1] != "test" // the schema accepts `command: null` / `entrypoint: null` (back to the image default)
 	for i := 0; i <= n; i++ {
-		if g.chance(1, 2) || (i == n && isAbsent(s.Target)) {
+		if nullable && len(s.Parts) > 0 && !isAbsent(s.Target) && g.chance(1, 4) {
+			// the later file sets the attribute to null: replaced wholesale, i.e. the attribute is gone
+			s.Parts = append(s.Parts, nil)
+			s.Target = c04Absent
+			s.Kind = "wholesale+null"
+			continue
+		}
+		if g.chance(1, 2) || (i == n && isAbsent(s.Target) && s.Kind == "wholesale") {
 			v := c04DeepCopy(vals[g.r.Intn(len(vals))])
 			s.Parts = append(s.Parts, v)
 			s.Target = c04DeepCopy(v)
@@ -968,6 +990,7 @@ func (g *c04o) splitKeyed(n int) c04Split {
 	s := c04Split{Path: k.path, Kind: "keyed-later-wins"}
 	var order []string
 	final := map[string]any{}
+	ranged := map[string]bool{}
 	any_ := false
 	for i := 0; i <= n; i++ {
 		if g.chance(1, 4) {
@@ -977,19 +1000,27 @@ func (g *c04o) splitKeyed(n int) c04Split {
 		any_ = true
 		l := []any{}
 		own := map[string]bool{}
-		for c := g.r.Intn(4); c > 0; c-- {
+		for c := g.r.Intn(5); c > 0; c-- {
 			raws, es := k.gen()
 			clash := false
 			for _, e := range es {
 				if own[e.key] {
-					clash = true // one entry per key inside a single file
+					clash = true
 				}
 			}
-			if clash {
+			// mostly one entry per key inside a single file; a single (non-range) entry may repeat a key of its own
+			// file, then the later entry of the file wins and keeps the first position
+			if clash && (len(es) > 1 || ranged[es[0].key] || !g.chance(1, 2)) {
 				continue
+			}
+			if clash {
+				g.dups++
 			}
 			if len(es) > 1 {
 				s.Kind = "keyed-later-wins+port-range"
+				for _, e := range es {
+					ranged[e.key] = true
+				}
 			}
 			l = append(l, raws...)
 			for _, e := range es {
@@ -1470,7 +1501,43 @@ func c04ReplayFrom(s c04Split, from int, start any) any {
 	return start
 }
 
+// kinds for which a null in a later file means "nothing to apply" (the value so far is kept)
+var c04NullKeeps = map[string]bool{
+	"scalar-replace": true, "map-deep": true, "kv-by-key": true, "append": true, "append-with-duplicate": true,
+	"keyed-later-wins": true, "keyed-later-wins+port-range": true,
+}
+
+// oneSplit: one attribute split; one time out of six a part that does not mention the attribute (after a part that
+// gave it a value) mentions it as an explicit null instead — except for the wholesale attributes (see splitWholesale)
+// the later file then has nothing to apply and the expected final value is the same.
 func (g *c04o) oneSplit(n int) c04Split {
+	s := g.oneSplit0(n)
+	if !c04NullKeeps[s.Kind] || !g.chance(1, 6) {
+		return s
+	}
+	var cand []int
+	seenValue := false
+	for i, p := range s.Parts {
+		if isAbsent(p) {
+			if seenValue && i > 0 {
+				cand = append(cand, i)
+			}
+			continue
+		}
+		if _, tagged := p.(*yDoc); tagged {
+			return s
+		}
+		seenValue = true
+	}
+	if len(cand) == 0 {
+		return s
+	}
+	s.Parts[cand[g.r.Intn(len(cand))]] = nil
+	s.Null = true
+	return s
+}
+
+func (g *c04o) oneSplit0(n int) c04Split {
 	switch k := g.r.Intn(20); {
 	case k < 2:
 		return g.splitScalar(n)
@@ -1708,15 +1775,22 @@ func (g *c04o) splitCase(k int) (c04SplitCase, []c04Split) {
 }
 
 func runC04Oracle(ctx *core.Ctx, gg *c04g) {
-	g := &c04o{gg}
+	g := &c04o{c04g: gg}
 	for i := 0; i < ctx.Pick(2000, 50000); i++ {
 		k := 1
 		if i%10 >= 7 {
 			k = 2 + ctx.Rng.Intn(3)
 		}
+		d0 := g.dups
 		c, splits := g.splitCase(k)
+		if g.dups > d0 {
+			ctx.Count("split-with-in-file-duplicate")
+		}
 		for _, s := range splits {
 			ctx.Count("split:" + s.Kind)
+			if s.Null {
+				ctx.Count("split-null-mention:" + s.Kind)
+			}
 		}
 		if c.MultiDoc {
 			ctx.Count("split-as-documents")
